@@ -386,8 +386,13 @@ def check_refusals(ctx, num=5):
         lp = enclosing_for(r, cp.node)
         rv = lp.target.elts[1].id if lp is not None and isinstance(lp.target, ast.Tuple) and len(lp.target.elts) == 2 and isinstance(lp.target.elts[1], ast.Name) else None
         iv = lp.target.elts[0].id if rv else None
+        env_ = single_defs(cp)
+
+        def _is_pid(term):
+            """a pipeline id: the field itself, or a local bound once to one (whatever the local is called)"""
+            return term.endswith(".pipeline_id") or term == "pipeline_id" or (term in env_ and norm.U(env_[term]).endswith(".pipeline_id"))
         known = norm.entails(fs, ("truth", bp, False)) \
-            or any(a[0] == "cmp" and a[1] == "!=" and a[2].endswith("pipeline_id") and a[3].endswith("pipeline_id") for a in fs) \
+            or any(a[0] == "cmp" and a[1] == "!=" and _is_pid(a[2]) and _is_pid(a[3]) for a in fs) \
             or (rv is not None and any(pred(fs, rv, iv) for pred in want.values()))
         ctx.ob(num, "K2", "the reader refuses a pipeline only for the documented malformations (empty group, mixed pipeline ids, priority / arrival on the wrong rows); "
                "everything the writer can produce is accepted", known, cp, r, construct="no further refusal",
